@@ -226,7 +226,7 @@ func c17Clock(c *Ctx, cs *Case) {
 
 func c17Run(c *Ctx) {
 	// 1. every built-in x 0..4 arguments x argument kinds
-	kinds := []string{"nil", True(), "2", "(-1.5)", `"s"`, "[]", "[1, 2]", "{}", "({k: 1})", "fq", B["abs"], "0", "[[3, 1, 2]]", "[[]]", "[[[7]]]", "(10 ** 400)"}
+	kinds := []string{"nil", True(), "2", "(-1.5)", `"s"`, `"16cm"`, "\"\u09e7\u09ec \u099f\u09be\u0995\u09be\"", "[]", "[1, 2]", "{}", "({k: 1})", "fq", B["abs"], "0", "[[3, 1, 2]]", "[[]]", "[[[7]]]", "(10 ** 400)"}
 	var nicks []string
 	for _, n := range []string{"len", "append", "remove", "delete", "keys", "values", "abs", "sqrt", "pow", "sin", "cos", "tan", "min", "max", "round", "input", "clock"} {
 		nicks = append(nicks, n)
@@ -384,9 +384,47 @@ func c17Run(c *Ctx) {
 	}
 	perms(nil, 0)
 	// misuse of min/max
-	for _, src := range []string{Print(BI("min")), Print(BI("max")), Print(BI("min", "[]")), Print(BI("max", "[]")), Print(BI("min", "[1, 2]", "3")), Print(BI("max", "[1, 2]", "[3]")), Print(BI("min", "1", "nil")), Print(BI("max", "[1, "+True()+"]")), Print(BI("min", `[1, "x"]`)), Print(BI("max", "{}")), Print(BI("min", "[[3, 1, 2]]")), Print(BI("max", "[[[7]]]")), Print(BI("min", "[[1], [2]]")), Print(BI("max", "[[]]")), Print(BI("min", "[1, [2]]"))} {
+	for _, src := range []string{Print(BI("min")), Print(BI("max")), Print(BI("min", "[]")), Print(BI("max", "[]")), Print(BI("min", "[1, 2]", "3")), Print(BI("max", "[1, 2]", "[3]")), Print(BI("min", "1", "nil")), Print(BI("max", "[1, "+True()+"]")), Print(BI("min", `[1, "x"]`)), Print(BI("max", `[1, "2 kg"]`)), Print(BI("min", `"7up"`, "3")), Print(BI("max", "{}")), Print(BI("min", "[[3, 1, 2]]")), Print(BI("max", "[[[7]]]")), Print(BI("min", "[[1], [2]]")), Print(BI("max", "[[]]")), Print(BI("min", "[1, [2]]"))} {
 		if c.Mine() {
 			c17Judge(c, &Case{Gen: "min-max-misuse", Src: Print(`"b"`) + "\n" + src + "\n" + Print(`"after"`) + "\n", X: map[string]string{"fn": "minmax", "nargs": "x"}})
+		}
+	}
+	// 3b. built-ins composed with each other: a built-in call in any argument position of another
+	// (directly and through a user function), evaluated several times in one run and in a loop
+	{
+		r := c.Rand("nested")
+		un := []string{"abs", "sqrt", "round", "sin", "cos", "tan"}
+		leafs := []string{"-3", "16", "2.5", "0.25", "(-0.5)", "7", "1.5", "100", "2"}
+		var ne func(d int) string
+		ne = func(d int) string {
+			if d == 0 || r.Intn(4) == 0 {
+				return leafs[r.Intn(len(leafs))]
+			}
+			switch r.Intn(7) {
+			case 0:
+				return BI("pow", ne(d-1), ne(d-1))
+			case 1:
+				return BI("max", ne(d-1), ne(d-1), ne(d-1))
+			case 2:
+				return BI("min", ne(d-1), ne(d-1))
+			case 3:
+				return BI("len", "["+ne(d-1)+", "+ne(d-1)+"]")
+			case 4:
+				return "via(" + ne(d-1) + ")"
+			case 5:
+				return BI("max", "["+ne(d-1)+", "+ne(d-1)+"]")
+			default:
+				return BI(un[r.Intn(len(un))], ne(d-1))
+			}
+		}
+		n := c.N(1500, 150000)
+		for k := 0; k < n; k++ {
+			e1, e2 := ne(3), ne(3)
+			src := Lines(Fun("via", "x", " "+Ret(BI("abs", "x"))+" "), Print(e1), Print(e2), Print(e1), For(Var("i", "0"), "i < 2", "i = i + 1", "{ "+Print(e2)+" }"), Print(BI("pow", "2", BI("abs", "-3"))), Print(BI("max", "1", BI("sqrt", "16"), "2")), Print(BI("min", "7", BI("round", "8.6"), "9")))
+			if !c.Mine() {
+				continue
+			}
+			c17Judge(c, &Case{Gen: "nested-builtins", Src: src, X: map[string]string{"fn": "nested", "nargs": "n"}})
 		}
 	}
 	// 4. clock: causal bracket around the child process
